@@ -746,6 +746,18 @@ func (s *Sess) call(op *Op, out *Outcome) {
 		if op.Slot != nil && op.Trav%3 == 1 && !s.Failed() {
 			s.queryAcrossCacheOps(*op.Slot, f, spec, op.Trav)
 		}
+		if op.Slot != nil && op.Trav%5 == 2 && spec.K != "rel" && !s.Failed() {
+			// a relation filter whose component filter is the registered filter: selects what the relation filter
+			// over the original selects
+			t := ecs.Entity{}
+			if al := s.M.AliveSorted(); len(al) > 0 && op.Trav%2 == 0 {
+				t = al[(op.Trav/5)%len(al)]
+			}
+			cf := s.regs[*op.Slot].cached
+			rf := ecs.NewRelationFilter(&cf, t)
+			s.QueryCheck(&rf, &FSpec{K: "rel", L: spec, T: entP(t)}, op.Trav/5)
+			s.Cov.N["relation_filter_over_registered_filter"]++
+		}
 	case "GC":
 		runtime.GC()
 	case "SetListener":
